@@ -4,6 +4,7 @@ package verifrt
 
 import (
 	"encoding/json"
+	"reflect"
 	"fmt"
 	"os"
 	"runtime"
@@ -246,3 +247,34 @@ func MaxAlloc(reset bool) int { return 0 }
 
 // OverrideIfPresent: like Override, for a library function the current tree may not call at all.
 func OverrideIfPresent(name string, f interface{}) {}
+
+// FieldSpec / FieldCount: see verifrt (native: by reflection)
+func FieldSpec(v interface{}, name string) string {
+	t := reflect.TypeOf(v)
+	for t != nil && t.Kind() == reflect.Ptr {
+		t = t.Elem()
+	}
+	if t == nil || t.Kind() != reflect.Struct {
+		return ""
+	}
+	for i := 0; i < t.NumField(); i++ {
+		if t.Field(i).Name == name {
+			return strconv.Itoa(i) + "|" + t.Field(i).Tag.Get("asn1")
+		}
+	}
+	return ""
+}
+
+func FieldCount(v interface{}) int {
+	t := reflect.TypeOf(v)
+	for t != nil && t.Kind() == reflect.Ptr {
+		t = t.Elem()
+	}
+	if t == nil || t.Kind() != reflect.Struct {
+		return 0
+	}
+	return t.NumField()
+}
+
+// OutOfDate: the harness no longer matches the code under test (reported as INCONCLUSIVE, never as a pass)
+func OutOfDate(what string) {}
